@@ -250,6 +250,11 @@ class VttContext:
 
     LOGGER.debug("Check and process the last VTT paragraph.")
 
+    # with line positions every region of the last ISD has its own cue: each needs the default end time code
+    for cue in self._paragraphs[:-1]:
+      if cue.get_end() is None:
+        cue.set_end(cue.get_begin().to_seconds() + 10.0)
+
     if self._paragraphs and self._paragraphs[-1].get_end() is None:
       if self._paragraphs[-1].is_only_whitespace_or_empty():
         # if the last paragraph contains only whitespace, remove it
